@@ -122,6 +122,63 @@ def standin(tier, seed):
     return V.result(bound=f"{len(combos)} force scales x 4 powers x scalar/per-coordinate; 5 gammas x {3 * n} coordinates (5 sigma)")
 
 
+class _Scripted:
+    """generator stand-in: every zeta drawn is the recorded one, every acceptance draw is 0 (accept at once)"""
+
+    def __init__(self, zeta):
+        self.zeta = zeta
+        self.bit_generator = np.random.default_rng(0).bit_generator
+
+    def uniform(self, lo, hi, size=None):
+        return np.full(size, self.zeta) if size is not None else self.zeta
+
+    def random(self, size=None):
+        return np.zeros(size) if size is not None else 0.0
+
+
 def replay(case):
-    res = standin("quick", 0)
-    return bool(res["violations"]), (res["violations"][0]["detail"] if res["violations"] else "bounded stand-in found no breach")
+    """the verifier's counter-model (T, delta, force, zeta, power, masses) against the real ForceBias.step: one atom pair with
+    the recorded force on every coordinate"""
+    from .common import num
+    if "values" not in case:
+        res = standin("quick", 0)
+        return bool(res["violations"]), (res["violations"][0]["detail"] if res["violations"] else "bounded stand-in found no breach")
+    vals = {k: float(num(x)) for k, x in case["values"].items() if x is not None}
+    T, delta, F, zeta, power = vals["T"], vals["delta"], vals["F"], vals["zeta"], vals.get("power", 0.25)
+    if not (T > 0 and delta > 0 and -1 <= zeta < 1) or not all(np.isfinite([T, delta, F, zeta, power])):
+        return False, "the counter-model lies outside the preconditions (T, delta > 0, zeta in [-1, 1))"
+    mass = vals.get("mass", 10.0) if vals.get("mass", 10.0) > 0 else 10.0
+    n = 2
+    mc, a = make(n, np.full((n, 3), F), delta, T, 0, masses=np.full(n, mass))
+    if case.get("independent_scaling_masses") and vals.get("scaling_mass", 0) > 0:
+        mc.update_masses(np.full((n, 3), vals["scaling_mass"]))
+    mc.masses_scaling_power = float(power)
+    mc._rng = _Scripted(zeta)
+    x0 = a.get_positions()
+    try:
+        with_alarm(20, mc.step)
+    except Timeout:
+        return True, "the real step does not terminate for the counter-model"
+    except Exception as e:  # noqa: BLE001
+        return True, f"the real step raises {e!r} for the counter-model"
+    g_spec = float(np.clip(F * delta / (2 * kB * T), -mc.gamma_max_value, mc.gamma_max_value))
+    if not np.allclose(mc.gamma, g_spec, rtol=1e-12, atol=0):
+        return True, f"gamma = {np.ravel(mc.gamma)[0]!r}, specification {g_spec!r}"
+    mc.zeta = np.full((n, 3), zeta)
+    P = np.ravel(mc.calculate_trial_probability())[0]
+    den = np.exp(g_spec) - np.exp(-g_spec)
+    if den == 0:
+        Ps = 1.0
+    elif zeta > 0:
+        Ps = (np.exp(g_spec) - np.exp(g_spec * (2 * zeta - 1))) / den
+    elif zeta < 0:
+        Ps = (np.exp(g_spec * (2 * zeta + 1)) - np.exp(-g_spec)) / den
+    else:
+        Ps = None
+    if Ps is not None and np.isfinite(Ps) and not np.isclose(P, Ps, rtol=1e-9, atol=1e-12):
+        return True, f"trial probability {P!r}, Bal-Neyts function {Ps!r} (zeta={zeta}, gamma={g_spec})"
+    disp = np.ravel(a.get_positions() - x0)[0]
+    want = zeta * delta * (np.min(mc.shaped_masses) / np.ravel(mc.shaped_masses)[0]) ** power
+    if not np.isclose(disp, want, rtol=1e-9, atol=1e-12):
+        return True, f"displacement {disp!r}, specification zeta*delta*(m_min/m)^power = {want!r}"
+    return False, "the real code satisfies gamma, trial-probability and displacement clauses for the counter-model"
